@@ -187,7 +187,11 @@ type randomDriver struct {
 	files   []int // file tokens seen
 	nOO     int
 	nLO     int
+
+	nameByFile map[int]string // last name under which a file was opened
 }
+
+func (d *randomDriver) nameOf(fh int) string { return d.nameByFile[fh] }
 
 func (d *randomDriver) pick(n int) int { return d.rng.Intn(n) }
 
@@ -407,6 +411,9 @@ func (d *randomDriver) step() {
 				o.files = map[int]*cliOpen{}
 			}
 			d.noteFile(rep.Fh)
+			if r.Claim == "NULL" {
+				d.nameByFile[rep.Fh] = r.Name
+			}
 			f, ok := o.files[rep.Fh]
 			if !ok {
 				f = &cliOpen{fh: rep.Fh}
@@ -453,6 +460,26 @@ func (d *randomDriver) step() {
 		afterOO(o, r, rep)
 		if rep.St == "OK" {
 			f.q, f.share = rep.Q, r.Share
+			// Often re-open with more access right away: if a
+			// lock-owner file or in-flight I/O still holds the
+			// bit that was given up, the new open is redundant.
+			if r.Share != 3 && d.pick(3) != 0 {
+				var r2 Req
+				if d.pick(3) == 0 {
+					r2 = rOpenPrev(c.cid, o.key, o.seq+1, f.fh, 1+d.pick(3))
+				} else {
+					r2 = rOpen(c.cid, o.key, o.seq+1, "", 1+d.pick(3), "NOCREATE")
+					r2.Claim, r2.Fh = "PREV", f.fh
+					if n := d.nameOf(f.fh); n != "" {
+						r2 = rOpen(c.cid, o.key, o.seq+1, n, 1+d.pick(3), "NOCREATE")
+					}
+				}
+				rep2, _ := e.do(r2)
+				afterOO(o, r2, rep2)
+				if rep2.St == "OK" && rep2.T == f.t {
+					f.q, f.share = rep2.Q, f.share|r2.Share
+				}
+			}
 		}
 	case k < 50:
 		o := d.oo(c)
@@ -511,6 +538,9 @@ func (d *randomDriver) step() {
 		if rep.St == "OK" {
 			if r.NewLo {
 				l.files[lockKey(f.fh, o.key)] = &cliLock{fh: f.fh, t: rep.T, q: rep.Q, ok: o.key}
+				if f.share == 3 && d.pick(3) == 0 {
+					d.downUp(c, o, f)
+				}
 			} else if lk != nil && rep.T == lk.t {
 				lk.q = rep.Q
 			}
@@ -568,6 +598,12 @@ func (d *randomDriver) step() {
 				return
 			}
 			r = rIO(op, f.fh, "reg", f.t, f.q, gateIt)
+			if gateIt && f.share == 3 && d.pick(2) == 0 {
+				if _, id := e.do(r); id > 0 {
+					d.downUp(c, o, f)
+				}
+				return
+			}
 		}
 		d.perturb(&r)
 		e.do(r)
@@ -613,6 +649,33 @@ func (d *randomDriver) step() {
 	}
 }
 
+// downUp sends OPEN_DOWNGRADE for an open file and then (usually) opens
+// it again with more access. While a lock-owner file or in-flight I/O
+// still holds the share that was given up, the second open is redundant
+// and must be closed by the server exactly once.
+func (d *randomDriver) downUp(c *client, o *cliOO, f *cliOpen) {
+	e := d.e
+	r := rDowngrade(f.fh, f.t, f.q, o.seq+1, 1+d.pick(2))
+	rep, _ := e.do(r)
+	afterOO(o, r, rep)
+	if rep.St != "OK" {
+		return
+	}
+	f.q, f.share = rep.Q, r.Share
+	if d.pick(5) == 0 {
+		return
+	}
+	r2 := rOpenPrev(c.cid, o.key, o.seq+1, f.fh, 1+d.pick(3))
+	if n := d.nameOf(f.fh); n != "" && d.pick(2) == 0 {
+		r2 = rOpen(c.cid, o.key, o.seq+1, n, 1+d.pick(3), "NOCREATE")
+	}
+	rep2, _ := e.do(r2)
+	afterOO(o, r2, rep2)
+	if rep2.St == "OK" && rep2.T == f.t {
+		f.q, f.share = rep2.Q, f.share|r2.Share
+	}
+}
+
 func lockKey(fh int, ok string) string { return fmt.Sprintf("%d/%s", fh, ok) }
 
 // TestRandom: seeded random multi-client histories.
@@ -624,7 +687,7 @@ func TestRandom(t *testing.T) {
 	for i := 0; i < traces; i++ {
 		rng := common.Rand(int64(1000 + i))
 		e := newEnv(tr, i, common.Seed()*100000+int64(i))
-		d := &randomDriver{e: e, rng: rng, names: []string{"a", "b", "c"}[:1+rng.Intn(3)], nOO: 1 + rng.Intn(3), nLO: 1 + rng.Intn(2)}
+		d := &randomDriver{e: e, rng: rng, nameByFile: map[int]string{}, names: []string{"a", "b", "c"}[:1+rng.Intn(3)], nOO: 1 + rng.Intn(3), nLO: 1 + rng.Intn(2)}
 		for j := 0; j < 2+rng.Intn(2); j++ {
 			c := &client{cl: j + 1, cv: 1}
 			c.reset()
